@@ -41,7 +41,36 @@ def run(repo, tier):
     out += loop_headers_rule(repo.func(F + ".fimo"), ["motifs_", "range(n_motifs)", "enumerate(alpha_idxs)", "fasta.items()", "range(n_)", "range(n_)"], "LOOPS",
                              "thresholds are computed for every scanned PWM and results are assembled for every reported motif")
     out += driver_rules(repo)
+    out += fasta_rules(repo)
     return out
+
+
+def fasta_rules(repo):
+    """FASTA input: record k of the file is sequence k of the scan.  The names reported with the hits are `list(fasta.keys())`, i.e. one
+    per record, so the loop that converts the records must append exactly one offset and one index array per record."""
+    f = repo.func(F + ".fimo")
+    role = "every FASTA record contributes one offset and one index array, in file order (record k = scanned sequence k = name k)"
+    loops = [n for n in walk_no_nested(f.node) if isinstance(n, ast.For) and "fasta" in unparse(n.iter) and ".items()" in unparse(n.iter)]
+    names = [s_ for s_ in walk_no_nested(f.node) if isinstance(s_, ast.Assign) and unparse(s_.targets[0]) == "sequence_names" and "fasta" in unparse(s_.value)]
+    if len(loops) != 1 or not names:
+        return [unrecognised("FASTA", f, role, "record loop / sequence_names not found")]
+    lp = loops[0]
+    nt = unparse(names[0].value)
+    all_keys = nt in ("numpy.array(list(fasta.keys()))", "list(fasta.keys())", "numpy.array(list(fasta))", "numpy.array([name for name in fasta.keys()])")
+    skips = [n for n in walk_no_nested(lp) if isinstance(n, (ast.Continue, ast.Break))]
+    apps = [s_ for s_ in lp.body if isinstance(s_, ast.Expr) and isinstance(s_.value, ast.Call) and isinstance(s_.value.func, ast.Attribute)
+            and s_.value.func.attr == "append" and isinstance(s_.value.func.value, ast.Name)]
+    tg = sorted(a.value.func.value.id for a in apps)
+    if skips and all_keys:
+        from ..core import named
+        g = parent_map(f.node).get(skips[0])
+        return [named("FASTA", f, role, "a record can be skipped (`%s` under `%s`) while sequence_names keeps every key of the file: the hits of all later "
+                      "records are reported under the wrong sequence name" % (type(skips[0]).__name__.lower(), unparse(g.test)[:50] if isinstance(g, ast.If) else "?"), skips[0])]
+    if not all_keys or skips:
+        return [unrecognised("FASTA", f, role, "sequence_names = %s ; skips=%d" % (nt[:60], len(skips)), lp)]
+    if tg != ["X", "lengths"]:
+        return [unrecognised("FASTA", f, role, "top-level appends in the record loop: %s" % tg, lp)]
+    return [holds("FASTA", f, role, "names = all keys; the loop appends to lengths and X unconditionally, no continue/break", lp)]
 
 
 def driver_rules(repo):
